@@ -28,10 +28,6 @@ const smtPrelude2 = `(declare-const ABSENTROW Row)
 (declare-fun crc32c (Bytes) Int)
 (declare-fun encvx (Bytes Int) Bytes)
 (declare-fun collid (Str Str) Int)
-(declare-fun xok (Bytes) Bool)
-(declare-fun xmap (Bytes) (Array Str Bytes))
-(declare-fun xmapnil (Bytes) Bool)
-(declare-fun xmarshal ((Array Str Bytes) Bool) Bytes)
 (declare-fun j.ofstr (Str) JsonV)
 (declare-fun j.ofint (Int) JsonV)
 (declare-fun j.ofbytes (Bytes) JsonV)
@@ -39,7 +35,6 @@ const smtPrelude2 = `(declare-const ABSENTROW Row)
 (declare-fun j.asmap (JsonV) (Array Str JsonV))
 (declare-fun j.asbytes (JsonV) Bytes)
 (declare-fun j.asint (JsonV) Int)
-(declare-fun m.len.b ((Array Str Bytes)) Int)
 (declare-fun m.len.j ((Array Str JsonV)) Int)
 (declare-datatypes ((FeedEv 0)) (((FE_NIL) (mkFE (fe.opcode Int) (fe.key Bytes) (fe.value Bytes) (fe.cas Int) (fe.expiry Int)
    (fe.datatype Int) (fe.revno Int) (fe.collid Int)))))
